@@ -196,6 +196,195 @@ fn http(port: u16, method: &str, path: &str, content_type: Option<&str>, body: &
     Outcome::Response { status, body }
 }
 
+/// A persistent HTTP/1.1 connection (no `Connection: close`): several requests in a row, or
+/// several written back-to-back before the first answer is read (pipelining).
+struct KeepAlive {
+    stream: TcpStream,
+    buf: Vec<u8>,
+}
+
+/// the wire form of one request of a keep-alive session (None: kind is not used there)
+fn wire_request(kind: &Kind, valid: &[ValidInstance]) -> Option<Vec<u8>> {
+    let (method, path, ct, body): (&str, &str, Option<&str>, Vec<u8>) = match kind {
+        Kind::Health => ("GET", "/health", None, vec![]),
+        Kind::SolveValid(i) => ("POST", "/solve", Some("application/json"), valid[*i].body.clone()),
+        Kind::NotJson => ("POST", "/solve", Some("application/json"), b"this is not json at all".to_vec()),
+        Kind::TruncatedJson(i) => {
+            let b = &valid[*i].body;
+            ("POST", "/solve", Some("application/json"), b[..b.len() * 2 / 3].to_vec())
+        }
+        Kind::WrongContentType(i) => ("POST", "/solve", Some("text/plain"), valid[*i].body.clone()),
+        Kind::EmptyBody => ("POST", "/solve", Some("application/json"), vec![]),
+        Kind::MissingField(i) | Kind::DanglingReference(i) | Kind::BadTimestamp(i) | Kind::MatrixMismatch(i) => {
+            ("POST", "/solve", Some("application/json"), corrupt(&valid[*i].input, kind))
+        }
+        Kind::UnknownRoute => ("GET", "/no/such/route", None, vec![]),
+        Kind::WrongMethod => ("GET", "/solve", None, vec![]),
+        _ => return None,
+    };
+    let mut w = format!("{} {} HTTP/1.1\r\nHost: localhost\r\n", method, path);
+    if let Some(ct) = ct {
+        w.push_str(&format!("Content-Type: {}\r\n", ct));
+    }
+    if method == "POST" {
+        w.push_str(&format!("Content-Length: {}\r\n", body.len()));
+    }
+    w.push_str("\r\n");
+    let mut w = w.into_bytes();
+    w.extend_from_slice(&body);
+    Some(w)
+}
+
+impl KeepAlive {
+    fn connect(port: u16, timeout_s: u64) -> Option<KeepAlive> {
+        let stream = TcpStream::connect(("127.0.0.1", port)).ok()?;
+        let _ = stream.set_nodelay(true);
+        let _ = stream.set_read_timeout(Some(Duration::from_secs(timeout_s)));
+        let _ = stream.set_write_timeout(Some(Duration::from_secs(timeout_s)));
+        Some(KeepAlive { stream, buf: Vec::new() })
+    }
+
+    fn fill(&mut self) -> Result<usize, String> {
+        let mut tmp = [0u8; 16384];
+        match self.stream.read(&mut tmp) {
+            Ok(0) => Err("connection closed".to_string()),
+            Ok(n) => {
+                self.buf.extend_from_slice(&tmp[..n]);
+                Ok(n)
+            }
+            Err(e) if matches!(e.kind(), std::io::ErrorKind::WouldBlock | std::io::ErrorKind::TimedOut) => Err("client-timeout on a keep-alive connection".to_string()),
+            Err(e) => Err(format!("read: {}", e)),
+        }
+    }
+
+    /// read exactly one response off the connection; the bool says whether the server announced
+    /// `Connection: close`
+    fn read_response(&mut self) -> (Outcome, bool) {
+        let pos = loop {
+            if let Some(p) = self.buf.windows(4).position(|w| w == b"\r\n\r\n") {
+                break p;
+            }
+            if let Err(e) = self.fill() {
+                let why = if self.buf.is_empty() { e } else { format!("incomplete response head ({})", e) };
+                return (Outcome::Closed(why), true);
+            }
+        };
+        let head = String::from_utf8_lossy(&self.buf[..pos]).to_string();
+        let lower = head.to_ascii_lowercase();
+        let status: u16 = head.split_whitespace().nth(1).and_then(|s| s.parse().ok()).unwrap_or(0);
+        let closing = lower.contains("connection: close");
+        self.buf.drain(..pos + 4);
+        let body = if lower.contains("transfer-encoding: chunked") {
+            // read until the terminating zero-length chunk
+            loop {
+                if let Some(end) = chunked_end(&self.buf) {
+                    let raw: Vec<u8> = self.buf.drain(..end).collect();
+                    break dechunk(&raw);
+                }
+                if let Err(e) = self.fill() {
+                    return (Outcome::Closed(format!("response body truncated ({})", e)), true);
+                }
+            }
+        } else {
+            let cl = lower
+                .lines()
+                .find(|l| l.starts_with("content-length:"))
+                .and_then(|l| l.split(':').nth(1))
+                .and_then(|v| v.trim().parse::<usize>().ok())
+                .unwrap_or(0);
+            while self.buf.len() < cl {
+                if let Err(e) = self.fill() {
+                    return (Outcome::Closed(format!("response body truncated ({})", e)), true);
+                }
+            }
+            self.buf.drain(..cl).collect()
+        };
+        (Outcome::Response { status, body }, closing)
+    }
+}
+
+/// index just behind the terminating chunk of a chunked body, if it is complete
+fn chunked_end(b: &[u8]) -> Option<usize> {
+    let mut i = 0;
+    loop {
+        let end = i + b.get(i..)?.windows(2).position(|w| w == b"\r\n")?;
+        let n = usize::from_str_radix(String::from_utf8_lossy(&b[i..end]).split(';').next().unwrap_or("").trim(), 16).ok()?;
+        let s = end + 2;
+        if n == 0 {
+            // trailers are not used by the server: expect the final CRLF
+            return if b.len() >= s + 2 { Some(s + 2) } else { None };
+        }
+        if b.len() < s + n + 2 {
+            return None;
+        }
+        i = s + n + 2;
+    }
+}
+
+/// One keep-alive session: the plan is cut into groups; the requests of a group are written
+/// back-to-back before the first answer is read (group size 1 = plain sequential reuse).
+/// A request whose connection went away before its answer, although the connection had already
+/// carried other requests (the server may close a connection after a failure, and HTTP lets it
+/// close an idle one at any time), was possibly never received: it is sent again on a fresh
+/// connection and that answer is judged.  Returns (events, retried).
+fn keep_alive_session(port: u16, client: usize, plan: &[(Kind, usize)], valid: &[ValidInstance], t0: Instant) -> (Vec<Event>, u64, u64) {
+    let mut events = Vec::new();
+    let mut retried = 0u64;
+    let mut answered_on_reused_connection = 0u64;
+    let mut conn: Option<KeepAlive> = None;
+    let mut carried = 0usize; // requests already answered on `conn`
+    let mut i = 0;
+    while i < plan.len() {
+        let group = plan[i].1.max(1);
+        let kinds: Vec<Kind> = plan[i..(i + group).min(plan.len())].iter().map(|(k, _)| k.clone()).collect();
+        i += kinds.len();
+        if conn.is_none() {
+            conn = KeepAlive::connect(port, 300);
+            carried = 0;
+        }
+        let call_ns = t0.elapsed().as_nanos();
+        let mut write_failed = conn.is_none();
+        if let Some(c) = conn.as_mut() {
+            let mut all = Vec::new();
+            for k in &kinds {
+                all.extend_from_slice(&wire_request(k, valid).expect("kind usable in keep-alive sessions"));
+            }
+            if c.stream.write_all(&all).and_then(|_| c.stream.flush()).is_err() {
+                write_failed = true;
+            }
+        }
+        let mut lost = write_failed;
+        for (pos, k) in kinds.iter().enumerate() {
+            let fresh_and_first = carried == 0 && pos == 0;
+            let mut outcome = if lost {
+                Outcome::Closed("connection closed".to_string())
+            } else {
+                let (o, closing) = conn.as_mut().unwrap().read_response();
+                if matches!(o, Outcome::Closed(_)) || closing {
+                    lost = true;
+                }
+                o
+            };
+            let timed_out = matches!(&outcome, Outcome::Closed(w) if w.starts_with("client-timeout"));
+            if matches!(outcome, Outcome::Closed(_)) && !fresh_and_first && !timed_out {
+                retried += 1;
+                outcome = perform(port, k, valid);
+            } else if matches!(outcome, Outcome::Response { .. }) {
+                if !fresh_and_first {
+                    answered_on_reused_connection += 1;
+                }
+                carried += 1;
+            }
+            let ret_ns = t0.elapsed().as_nanos();
+            events.push(Event { client, seq: events.len(), kind: k.clone(), call_ns, ret_ns, outcome });
+        }
+        if lost {
+            conn = None;
+        }
+    }
+    (events, retried, answered_on_reused_connection)
+}
+
 fn dechunk(b: &[u8]) -> Vec<u8> {
     let mut out = Vec::new();
     let mut i = 0;
@@ -770,12 +959,63 @@ pub fn case(ctx: &Ctx, idx: u64) -> CaseOut {
         let _ = h.join();
     }
     let alive_after_burst = matches!(server.child.try_wait(), Ok(None));
+    // ---------------------------------------------------------------- keep-alive sessions: connections that carry several
+    // requests in a row (valid after invalid on the SAME connection, other instances one after the
+    // other) and pipelined groups written before the first answer is read; several sessions at once
+    let ka_events: Arc<Mutex<Vec<Event>>> = Arc::new(Mutex::new(Vec::new()));
+    let ka_stats: Arc<Mutex<(u64, u64, u64)>> = Arc::new(Mutex::new((0, 0, 0)));
+    if alive_after_burst {
+        let n_sessions = if ctx.thorough() { rng.usize(3, 8) } else { rng.usize(2, 4) };
+        let mut hs = Vec::new();
+        for c in 0..n_sessions {
+            let mut plan: Vec<(Kind, usize)> = Vec::new();
+            for _ in 0..rng.usize(3, if ctx.thorough() { 9 } else { 6 }) {
+                let v = rng.usize(0, valid.len() - 1);
+                let kind = match rng.below(20) {
+                    0..=8 => Kind::SolveValid(v),
+                    9..=10 => Kind::Health,
+                    11 => Kind::NotJson,
+                    12 => Kind::TruncatedJson(v),
+                    13 => Kind::WrongContentType(v),
+                    14 => Kind::EmptyBody,
+                    15 => Kind::MissingField(v),
+                    16 => Kind::DanglingReference(v),
+                    17 => Kind::BadTimestamp(v),
+                    18 => Kind::UnknownRoute,
+                    _ => Kind::WrongMethod,
+                };
+                // group size: 1 = wait for the answer first, 2-3 = pipelined with the following ones
+                plan.push((kind, if rng.chance(1, 3) { rng.usize(2, 3) } else { 1 }));
+            }
+            // every session carries at least two different valid instances back to back
+            let a = rng.usize(0, valid.len() - 1);
+            plan.push((Kind::SolveValid(a), 2));
+            plan.push((Kind::SolveValid((a + 1) % valid.len()), 1));
+            let valid = valid.clone();
+            let ka_events = ka_events.clone();
+            let ka_stats = ka_stats.clone();
+            hs.push(std::thread::spawn(move || {
+                let (ev, retried, reused) = keep_alive_session(port, 2000 + c, &plan, &valid, t0);
+                let pipelined = plan.iter().filter(|(_, g)| *g > 1).count() as u64;
+                ka_events.lock().unwrap().extend(ev);
+                let mut st = ka_stats.lock().unwrap();
+                st.0 += retried;
+                st.1 += reused;
+                st.2 += pipelined;
+            }));
+        }
+        for h in hs {
+            let _ = h.join();
+        }
+        out.count("keep_alive_sessions", n_sessions as u64);
+    }
+    let alive_after_keep_alive = matches!(server.child.try_wait(), Ok(None));
     // ---------------------------------------------------------------- soak: hundreds of failing requests on the same process
     // (a resource that a failing request does not give back - a slot, a permit, a thread - runs
     // out only after many of them)
     let soak = idx % 3 == 1;
     let soak_events: Arc<Mutex<Vec<Event>>> = Arc::new(Mutex::new(Vec::new()));
-    if soak && alive_after_burst {
+    if soak && alive_after_burst && alive_after_keep_alive {
         let per_thread = if ctx.thorough() { 250 } else { 60 };
         let n_threads = 8;
         let mut hs = Vec::new();
@@ -817,7 +1057,7 @@ pub fn case(ctx: &Ctx, idx: u64) -> CaseOut {
     let alive_after_soak = matches!(server.child.try_wait(), Ok(None));
     // ---------------------------------------------------------------- quiescent probes
     let mut probes: Vec<Event> = Vec::new();
-    if alive_after_burst && alive_after_soak {
+    if alive_after_burst && alive_after_keep_alive && alive_after_soak {
         let mut kinds = vec![Kind::Health, Kind::SolveValid(0), Kind::Health];
         if soak {
             // every valid instance once more on the worn process
@@ -837,11 +1077,11 @@ pub fn case(ctx: &Ctx, idx: u64) -> CaseOut {
 
     // ---------------------------------------------------------------- offline checker
     let hist = history.lock().unwrap().clone();
-    if !alive_after_burst || !alive_after_soak || !alive_at_end {
+    if !alive_after_burst || !alive_after_keep_alive || !alive_after_soak || !alive_at_end {
         out.viol(
             "C18",
             "server.process_exited",
-            format!("the server process exited during the scenario (alive after burst: {}, after soak: {}, at end: {})", alive_after_burst, alive_after_soak, alive_at_end),
+            format!("the server process exited during the scenario (alive after burst: {}, after keep-alive sessions: {}, after soak: {}, at end: {})", alive_after_burst, alive_after_keep_alive, alive_after_soak, alive_at_end),
         );
     }
     let soak_hist = soak_events.lock().unwrap().clone();
@@ -870,6 +1110,18 @@ pub fn case(ctx: &Ctx, idx: u64) -> CaseOut {
             out.count("requests_without_response", 1);
         }
         judge_event(e, &valid, &mut out, "under_load");
+    }
+    let ka_hist = ka_events.lock().unwrap().clone();
+    {
+        let st = ka_stats.lock().unwrap();
+        out.count("keep_alive_requests_resent_on_a_fresh_connection", st.0);
+        out.count("keep_alive_requests_answered_on_a_reused_connection", st.1);
+        out.count("keep_alive_pipelined_groups", st.2);
+    }
+    for e in &ka_hist {
+        out.count("keep_alive_requests", 1);
+        out.count(&format!("keep_alive.{}", e.kind.name()), 1);
+        judge_event(e, &valid, &mut out, "keep_alive");
     }
     for e in &probes {
         out.count("probe_requests", 1);
@@ -922,6 +1174,7 @@ pub fn case(ctx: &Ctx, idx: u64) -> CaseOut {
     }
     let hist_json: Vec<Value> = hist
         .iter()
+        .chain(ka_hist.iter())
         .chain(probes.iter())
         .map(|e| {
             json!({
